@@ -18,29 +18,29 @@ namespace Log4rs.Pattern.Parse
 
 /-- Parser round trip, exact: parsing the printed AST yields precisely the pieces `piecesOf`
 (ordinary neighbouring characters merged into one `Text` piece), at every nesting depth. -/
-theorem C09_parse_show (cc : CharClass) (hcc : CCAscii cc) (P : Profile) (hus : P.underscoreNames = true)
+theorem C09_parse_show (cc : CharClass) (hcc : CCAscii cc) (P : Profile) (hus : P.underscoreNames = true) (hP : P.doubledCloseParen = true)
     (ps : List Pat) (h : WF P ps) :
     parse cc P (showPats ps) = .ok (piecesOf [] ps) :=
-  parse_show cc hcc P hus ps h
+  parse_show cc hcc P hus hP ps h
 
 /-- `PatternEncoder::new(show ps).encode(record)` has the same outcome — operations or panic — as
 encoding the direct translation of the AST. No hypothesis on the date formats (a format chrono's
 item parser rejects is the `{ERROR: invalid date format …}` chunk on both sides). -/
-theorem C09_run_show (cc : CharClass) (hcc : CCAscii cc) (P : Profile) (hus : P.underscoreNames = true)
+theorem C09_run_show (cc : CharClass) (hcc : CCAscii cc) (P : Profile) (hus : P.underscoreNames = true) (hP : P.doubledCloseParen = true)
     (B : Build) (hB : B.mdcWhole = true) (env : Env) (r : Record) (ps : List Pat) (h : WF P ps) :
     run cc P B env r (showPats ps) = encList env r (chunksOf B ps) := by
   have hm := meaning_piecesOf B hB P.wordBits env r ps false h []
-  simp only [run, newEncoder, C09_parse_show cc hcc P hus ps h, omap]
+  simp only [run, newEncoder, C09_parse_show cc hcc P hus hP ps h, omap]
   rw [hm]
   simp [ofText, seqOut_ok_nil]
 
 /-- The operation stream (characters and style calls, in order) of encoding a printed
 well-formed AST, when chrono accepts its date formats. -/
-theorem C09_ops_parse_show (cc : CharClass) (hcc : CCAscii cc) (P : Profile) (hus : P.underscoreNames = true)
+theorem C09_ops_parse_show (cc : CharClass) (hcc : CCAscii cc) (P : Profile) (hus : P.underscoreNames = true) (hP : P.doubledCloseParen = true)
     (B : Build) (hB : B.mdcWhole = true) (env : Env) (r : Record) (ps : List Pat) (h : WF P ps)
     (hd : DatesOk B env ps) :
     run cc P B env r (showPats ps) = .ok (opsList env r (chunksOf B ps)) := by
-  rw [C09_run_show cc hcc P hus B hB env r ps h]
+  rw [C09_run_show cc hcc P hus hP B hB env r ps h]
   apply encList_eq_ops
   rw [rendered_chunksOf B env ps hd.1]
   exact hd.2
@@ -51,21 +51,21 @@ nesting depth), every record and environment: the text the encoder writes for th
 is exactly the pattern's meaning — literal text with escapes reduced, each formatter's value
 (`???` for absent fields, MDC value or default, date in the requested format and zone, nested
 groups, debug/release groups by build profile), each under its format spec — nothing added,
-dropped or reordered. (`hus`, `hB`: the current code, i.e. the defaults of `Profile` / `Build`.) -/
+dropped or reordered. (`hus`, `hP`, `hB`: the current code, i.e. the defaults of `Profile` / `Build`.) -/
 theorem C09_encode_parse_show (cc : CharClass) (hcc : CCAscii cc) (P : Profile)
-    (hus : P.underscoreNames = true) (B : Build) (hB : B.mdcWhole = true) (env : Env) (r : Record)
+    (hus : P.underscoreNames = true) (hP : P.doubledCloseParen = true) (B : Build) (hB : B.mdcWhole = true) (env : Env) (r : Record)
     (ps : List Pat) (h : WF P ps) (hd : DatesOk B env ps) :
     ∃ o, run cc P B env r (showPats ps) = .ok o ∧ o.text = denotePats env r ps :=
-  ⟨_, C09_ops_parse_show cc hcc P hus B hB env r ps h hd,
+  ⟨_, C09_ops_parse_show cc hcc P hus hP B hB env r ps h hd,
     text_chunksOf B P.wordBits env r ps false h hd.1⟩
 
 /-- Style calls are exactly: the level's style before and the plain style after every rendered
 highlight group, in order — a format spec never drops or moves them, nothing else sets a style. -/
 theorem C09_styles_only_around_highlight (cc : CharClass) (hcc : CCAscii cc) (P : Profile)
-    (hus : P.underscoreNames = true) (B : Build) (hB : B.mdcWhole = true) (env : Env)
+    (hus : P.underscoreNames = true) (hP : P.doubledCloseParen = true) (B : Build) (hB : B.mdcWhole = true) (env : Env)
     (r : Record) (ps : List Pat) (h : WF P ps) (hd : DatesOk B env ps) :
     ∃ o, run cc P B env r (showPats ps) = .ok o ∧ o.styles = stylesPats env r ps :=
-  ⟨_, C09_ops_parse_show cc hcc P hus B hB env r ps h hd, styles_chunksOf B env r ps⟩
+  ⟨_, C09_ops_parse_show cc hcc P hus hP B hB env r ps h hd, styles_chunksOf B env r ps⟩
 
 /-- no highlight group, no style call -/
 theorem C09_no_highlight_no_styles (env : Env) (r : Record) (ps : List Pat)
@@ -79,19 +79,19 @@ theorem C09_debug_level_unstyled (env : Env) (r : Record) (ps : List Pat)
 
 /-- Aliases are equivalent — `thread_id` included: writing every formatter in its short form
 changes nothing; the outcome of construct + encode is the same for all records and environments. -/
-theorem C09_alias_equiv (cc : CharClass) (hcc : CCAscii cc) (P : Profile) (hus : P.underscoreNames = true)
+theorem C09_alias_equiv (cc : CharClass) (hcc : CCAscii cc) (P : Profile) (hus : P.underscoreNames = true) (hP : P.doubledCloseParen = true)
     (B : Build) (hB : B.mdcWhole = true) (env : Env) (r : Record) (ps : List Pat) (h : WF P ps) :
     run cc P B env r (showPats ps) = run cc P B env r (showPats (unaliasL ps)) := by
-  rw [C09_run_show cc hcc P hus B hB env r ps h,
-    C09_run_show cc hcc P hus B hB env r (unaliasL ps) (wfPats_unalias P.wordBits ps false h),
+  rw [C09_run_show cc hcc P hus hP B hB env r ps h,
+    C09_run_show cc hcc P hus hP B hB env r (unaliasL ps) (wfPats_unalias P.wordBits ps false h),
     chunksOf_unalias]
 
 /-- in particular `{thread_id}` and `{I}` -/
-theorem C09_thread_id_alias (cc : CharClass) (hcc : CCAscii cc) (P : Profile) (hus : P.underscoreNames = true)
+theorem C09_thread_id_alias (cc : CharClass) (hcc : CCAscii cc) (P : Profile) (hus : P.underscoreNames = true) (hP : P.doubledCloseParen = true)
     (B : Build) (hB : B.mdcWhole = true) (env : Env) (r : Record) :
     run cc P B env r cs!"{thread_id}" = run cc P B env r cs!"{I}" := by
   have h : WF P [.leaf .threadId true none] := by unfold WF; rfl
-  have := C09_alias_equiv cc hcc P hus B hB env r [.leaf .threadId true none] h
+  have := C09_alias_equiv cc hcc P hus hP B hB env r [.leaf .threadId true none] h
   simpa [showPats_cons, showPats_nil, showPat_leaf, unaliasL, unalias, leafName, showSpec] using this
 
 /-! ## findings -/
@@ -104,29 +104,38 @@ theorem C09_F5_thread_id_alias_unparsable_unfixed :
     parse asciiClass Profile.debug64 cs!"{thread_id}" = .ok [.arg cs!"thread_id" [] {}] := by
   refine ⟨?_, ?_, ?_⟩ <;> rfl
 
-/-- F6 (a), STILL A FINDING: inside a parenthesised argument the doubled form `))` does not
-produce `)`: the first `)` closes the argument, whatever follows. `WF` therefore asks for `\)`. -/
-theorem C09_F6_doubled_close_paren_closes_argument (cc : CharClass) (P : Profile) (more : List Char)
-    (acc : List Piece) : argB cc P (')' :: ')' :: more) acc = .ok acc (')' :: more) :=
-  argB_close cc P _ acc
+/-- F6 (a) (historical, repaired by commit 185a57e): inside a parenthesised argument the doubled
+form `))` did not produce `)`: the first `)` closed the argument, whatever followed. -/
+theorem C09_F6_doubled_close_paren_closes_argument_unfixed (cc : CharClass) (P : Profile)
+    (hP : P.doubledCloseParen = false) (more : List Char) (acc : List Piece) :
+    argB cc P (')' :: ')' :: more) acc = .ok acc (')' :: more) :=
+  argB_close_unfixed cc P hP _ acc
 
-/-- F6 (a), end to end: `{(a)))}` is an error instead of `a)`. -/
+/-- since the repair: `))` inside an argument is the piece `Text(")")`, and the loop goes on -/
+theorem C09_doubled_close_paren_is_literal (cc : CharClass) (P : Profile) (hP : P.doubledCloseParen = true)
+    (more : List Char) (acc : List Piece) :
+    argB cc P (')' :: ')' :: more) acc = argB cc P more (acc ++ [.text [')']]) :=
+  argB_dbl cc P hP more acc
+
+/-- F6 (a), end to end: `{(a)))}` was an error, and is `a)` now. -/
 theorem C09_F6_witness (B : Build) :
     showPats [.group .align false [.lit ⟨'a', .plain⟩, .lit ⟨')', .doubled⟩] none] = cs!"{(a)))}" ∧
-    newEncoder asciiClass Profile.debug64 B cs!"{(a)))}" = .ok [.error cs!"expected '}'"] := by
-  constructor <;> rfl
+    newEncoder asciiClass Profile.unfixed64 B cs!"{(a)))}" = .ok [.error cs!"expected '}'"] ∧
+    newEncoder asciiClass Profile.debug64 B cs!"{(a)))}" =
+      .ok [.group .align [.text ['a'], .text [')']] {}] := by
+  refine ⟨?_, ?_, ?_⟩ <;> rfl
 
-/-- the statement with `))` allowed inside arguments (false: F6a) -/
-def C09_full_with_doubled_close_paren : Prop :=
+/-- the instance of the main statement with `))` inside an argument: false before the repair … -/
+def C09_with_doubled_close_paren (P : Profile) : Prop :=
   ∀ (B : Build) (env : Env) (r : Record), ∃ o,
-    run asciiClass Profile.debug64 B env r
+    run asciiClass P B env r
       (showPats [.group .align false [.lit ⟨'a', .plain⟩, .lit ⟨')', .doubled⟩] none]) = .ok o ∧
     o.text = denotePats env r [.group .align false [.lit ⟨'a', .plain⟩, .lit ⟨')', .doubled⟩] none]
 
-theorem C09_full_with_doubled_close_paren_false : ¬ C09_full_with_doubled_close_paren := by
+theorem C09_with_doubled_close_paren_false_unfixed : ¬ C09_with_doubled_close_paren Profile.unfixed64 := by
   intro h
   obtain ⟨o, ho, ht⟩ := h { renderOk := fun _ => true } witnessEnv witnessRecord
-  have hrun : run asciiClass Profile.debug64 { renderOk := fun _ => true } witnessEnv witnessRecord
+  have hrun : run asciiClass Profile.unfixed64 { renderOk := fun _ => true } witnessEnv witnessRecord
       (showPats [.group .align false [.lit ⟨'a', .plain⟩, .lit ⟨')', .doubled⟩] none]) =
       .ok (ofText (errorMarker cs!"expected '}'")) := by rfl
   rw [hrun] at ho
@@ -137,6 +146,20 @@ theorem C09_full_with_doubled_close_paren_false : ¬ C09_full_with_doubled_close
     simp [denotePats_cons, denotePats_nil, denotePat_group, denotePat_lit, applySpec]
   rw [this] at ht
   exact absurd ht (by decide)
+
+/-- … and true of the current code (an instance of `C09_encode_parse_show`). -/
+theorem C09_with_doubled_close_paren_holds : C09_with_doubled_close_paren Profile.debug64 := by
+  intro B env r
+  have hcc : CCAscii asciiClass := by
+    intro c hc; simp [asciiClass, hc]
+  have hwf : WF Profile.debug64 [.group .align false [.lit ⟨'a', .plain⟩, .lit ⟨')', .doubled⟩] none] := by
+    decide
+  obtain ⟨o, ho, ht⟩ := C09_encode_parse_show asciiClass hcc Profile.debug64 rfl rfl
+    { B with mdcWhole := true } rfl env r _ hwf ⟨by intro f hf; simp [allDatesPats, allDatesPat] at hf,
+      by intro x hx; simp [datesPats, datesPat] at hx⟩
+  refine ⟨o, ?_, ht⟩
+  rw [← ho]
+  rfl
 
 /-- F6 (b) (historical, repaired by commit 7be4123): the MDC key (and default) kept only the first
 text piece of their argument, so an escape inside the key cut it … -/
@@ -174,9 +197,11 @@ example : WF Profile.debug64 [.mdc true [⟨'k', .plain⟩] (some [⟨'d', .plai
 example : WF Profile.debug64 [.leaf .threadId true none] := by decide
 example : WF Profile.debug64 [.mdc false [⟨'k', .plain⟩, ⟨'{', .doubled⟩, ⟨')', .backslash⟩]
     (some [⟨'\\', .doubled⟩]) none] := by decide
-/-- outside WF: `))` inside an argument (F6a), also in an MDC key; an empty MDC key; m > M -/
-example : ¬ WF Profile.debug64 [.group .align false [.lit ⟨')', .doubled⟩] none] := by decide
-example : ¬ WF Profile.debug64 [.mdc false [⟨'k', .plain⟩, ⟨')', .doubled⟩] none none] := by decide
+/-- inside WF since the repair of F6a: `))` inside an argument, also in an MDC key -/
+example : WF Profile.debug64 [.group .align false [.lit ⟨')', .doubled⟩, .lit ⟨')', .doubled⟩] none] := by decide
+example : WF Profile.debug64 [.mdc false [⟨'k', .plain⟩, ⟨')', .doubled⟩] none none] := by decide
+/-- outside WF: an unescaped special; an empty MDC key; m > M -/
+example : ¬ WF Profile.debug64 [.lit ⟨')', .plain⟩] := by decide
 example : ¬ WF Profile.debug64 [.mdc false [] none none] := by decide
 example : ¬ WF Profile.debug64 [.leaf .message false (some { minW := some [9], maxW := some [3] })] := by decide
 
